@@ -538,17 +538,16 @@ theorem validate_ok {p : Str} {cs : List Name} (h : Ref.validate p = .ok cs) :
       · cases h0
       · exact hnul (mem_chars_of_mem_splitOn '/' p c h0 _ hx)
 
-/-- `"a/b/"`: the name `write_zip` gives a directory validates to the same components -/
-theorem validate_dirName {cs : List Name} (h : AllClean cs) (hne : cs ≠ []) :
-    Ref.validate (joinWith '/' cs ++ ['/']) = .ok cs := by
-  have hcl := h.clean
-  have hnul : (joinWith '/' cs ++ ['/']).contains '\x00' = false := by
-    have := noNul_mkp (a := false) (cs := cs) (fun c hc => cleanName_noNul (h c hc))
-    simp only [mkp, Bool.false_eq_true, if_false, List.nil_append] at this
-    simp only [List.contains_eq_mem, List.mem_append, List.mem_cons, List.not_mem_nil, or_false,
-      decide_eq_false_iff_not, not_or]
-    exact ⟨this, by decide⟩
-  simp only [Ref.validate, hnul, Bool.false_eq_true, if_false]
+theorem relpath_mkp {a : Bool} {cs : List Name} (h : Clean cs) : relpath (mkp a cs) = mkp false cs := by
+  rw [relpath, lstripSlash_mkp h]; simp [mkp]
+
+theorem forcedir_mkp_false {cs : List Name} (h : Clean cs) (hne : cs ≠ []) :
+    forcedir (mkp false cs) = joinWith '/' cs ++ ['/'] := by
+  simp only [forcedir, endsWithSlash_mkp h hne, Bool.false_eq_true, if_false]
+  simp [mkp]
+
+theorem normpath_dirName {cs : List Name} (hcl : Clean cs) (hne : cs ≠ []) :
+    normpath (joinWith '/' cs ++ ['/']) = .ok (mkp false cs) := by
   have hjoin : joinWith '/' cs ++ ['/'] = joinWith '/' (cs ++ [[]]) := by
     rw [join_snoc, join_append_slash cs hne]; simp
   have hsplit : splitSlash (joinWith '/' cs ++ ['/']) = cs ++ [[]] := by
@@ -564,8 +563,20 @@ theorem validate_dirName {cs : List Name} (h : AllClean cs) (hne : cs ≠ []) :
   have hjne : joinWith '/' cs ≠ [] := fun e => hne ((join_clean_eq_nil_iff hcl).1 e)
   have hsw : startsWithSlash (joinWith '/' cs ++ ['/']) = false := by
     rw [startsWithSlash_append _ _ hjne]; exact startsWithSlash_join_clean hcl
-  have hnorm : normpath (joinWith '/' cs ++ ['/']) = .ok (mkp false cs) := by
-    rw [normpath_eq_specNorm, specNorm, hres, hsw]; rfl
+  rw [normpath_eq_specNorm, specNorm, hres, hsw]; rfl
+
+/-- `"a/b/"`: the name `write_zip` gives a directory validates to the same components -/
+theorem validate_dirName {cs : List Name} (h : AllClean cs) (hne : cs ≠ []) :
+    Ref.validate (joinWith '/' cs ++ ['/']) = .ok cs := by
+  have hcl := h.clean
+  have hnul : (joinWith '/' cs ++ ['/']).contains '\x00' = false := by
+    have := noNul_mkp (a := false) (cs := cs) (fun c hc => cleanName_noNul (h c hc))
+    simp only [mkp, Bool.false_eq_true, if_false, List.nil_append] at this
+    simp only [List.contains_eq_mem, List.mem_append, List.mem_cons, List.not_mem_nil, or_false,
+      decide_eq_false_iff_not, not_or]
+    exact ⟨this, by decide⟩
+  simp only [Ref.validate, hnul, Bool.false_eq_true, if_false]
+  have hnorm := normpath_dirName hcl hne
   unfold iteratepath
   rw [hnorm, bind_ok]
   have := iteratepath_mkp false hcl
@@ -920,9 +931,9 @@ theorem dirStep_wf (s : Ref.State) (hs : s.root.wf = true) (hc : s.closed = fals
     | err e => exact ⟨hw, rfl⟩
     | ok v => exact step_create_wf T1 hw name false
 
-theorem buildDir_wf (s : Ref.State) (hs : s.root.wf = true) (hc : s.closed = false) (names : List Str) :
-    (buildDir s names).1.root.wf = true := by
-  induction names generalizing s with
+theorem buildDir_wf (s : Ref.State) (hs : s.root.wf = true) (hc : s.closed = false)
+    (nm : List (Str × Str)) (names : List Str) : (buildDir s nm names).1.root.wf = true := by
+  induction names generalizing s nm with
   | nil => simpa [buildDir] using hs
   | cons n ns ih =>
     have h := dirStep_wf s hs hc n
@@ -932,8 +943,159 @@ theorem buildDir_wf (s : Ref.State) (hs : s.root.wf = true) (hc : s.closed = fal
       rw [hd] at h
       cases e with
       | some e => exact h.1
-      | none => exact ih s' h.1 h.2
+      | none =>
+        simp only
+        cases zipKey n with
+        | err e => exact h.1
+        | ok k => exact ih s' h.1 h.2 _
 
+theorem step_makedirs_wf_closed (T : Node) (p : Str) (r : Bool) :
+    (Ref.step ⟨T, false⟩ (.makedirs p r)).1.closed = false := by
+  cases hv : Ref.validate p with
+  | err e =>
+    simp only [Ref.step, Ref.Op.paths, mapM_single_err p e hv]
+    rfl
+  | ok cs =>
+    rw [step_makedirs T p cs hv]
+    simp only [Ref.step1]
+    split
+    · rfl
+    · split
+      · split <;> rfl
+      · split <;> rfl
+      · rfl
+
+theorem step_create_closed (T : Node) (p : Str) (w : Bool) :
+    (Ref.step ⟨T, false⟩ (.create p w)).1.closed = false := by
+  cases hv : Ref.validate p with
+  | err e =>
+    simp only [Ref.step, Ref.Op.paths, mapM_single_err p e hv]
+    rfl
+  | ok cs =>
+    rw [step_create T p cs hv]
+    simp only [Ref.step1]
+    split
+    · rfl
+    · simp only [Ref.writeFile]
+      split
+      · rfl
+      · split
+        · rfl
+        · rfl
+        · split <;> rfl
+
+theorem dirStep_closed (T : Node) (name : Str) : (dirStep ⟨T, false⟩ name).1.closed = false := by
+  simp only [dirStep]
+  split
+  · exact step_makedirs_wf_closed T name true
+  · have h2 := step_makedirs_wf_closed T (dirname name) true
+    generalize Ref.step ⟨T, false⟩ (.makedirs (dirname name) true) = r1 at h2 ⊢
+    obtain ⟨⟨T1, c1⟩, o1⟩ := r1
+    simp only at h2 ⊢
+    subst h2
+    cases o1 with
+    | err e => rfl
+    | ok v => exact step_create_closed T1 name false
+
+/-! #### … and the root stays a directory -/
+
+theorem isDir_set (T : Node) (cs : List Name) (v : Node) (hcs : cs ≠ []) : (T.set cs v).isDir = T.isDir := by
+  cases cs with
+  | nil => exact absurd rfl hcs
+  | cons c cs =>
+    cases T with
+    | file d => cases cs <;> simp [Node.set, Node.isDir]
+    | dir es =>
+      cases cs with
+      | nil => simp [Node.set, Node.isDir]
+      | cons d cs' =>
+        rw [set_cons_cons_dir]
+        cases Ents.lookup c es <;> simp [Node.isDir]
+
+theorem isDir_mkdirs (pre cs : List Name) (T : Node) : (Ref.mkdirs pre cs T).isDir = T.isDir := by
+  induction cs generalizing pre T with
+  | nil => simp [Ref.mkdirs]
+  | cons c cs ih =>
+    simp only [Ref.mkdirs]
+    rw [ih]
+    cases T.get (pre ++ [c]) with
+    | some n => rfl
+    | none => exact isDir_set T _ _ (by simp)
+
+theorem step_makedirs_isDir (T : Node) (p : Str) (r : Bool) :
+    (Ref.step ⟨T, false⟩ (.makedirs p r)).1.root.isDir = T.isDir := by
+  cases hv : Ref.validate p with
+  | err e =>
+    simp only [Ref.step, Ref.Op.paths, mapM_single_err p e hv]
+    rfl
+  | ok cs =>
+    rw [step_makedirs T p cs hv]
+    simp only [Ref.step1]
+    split
+    · rfl
+    · split
+      · split <;> rfl
+      · split <;> rfl
+      · exact isDir_mkdirs [] cs T
+
+theorem step_create_isDir (T : Node) (p : Str) (w : Bool) :
+    (Ref.step ⟨T, false⟩ (.create p w)).1.root.isDir = T.isDir := by
+  cases hv : Ref.validate p with
+  | err e =>
+    simp only [Ref.step, Ref.Op.paths, mapM_single_err p e hv]
+    rfl
+  | ok cs =>
+    rw [step_create T p cs hv]
+    simp only [Ref.step1]
+    split
+    · rfl
+    · simp only [Ref.writeFile]
+      split
+      · rfl
+      · next hne =>
+        split
+        · rfl
+        · rfl
+        · split
+          · rfl
+          · exact isDir_set T cs _ hne
+          · exact isDir_set T cs _ hne
+
+theorem dirStep_isDir (T : Node) (name : Str) : (dirStep ⟨T, false⟩ name).1.root.isDir = T.isDir := by
+  simp only [dirStep]
+  split
+  · exact step_makedirs_isDir T name true
+  · have h1 := step_makedirs_isDir T (dirname name) true
+    have h2 := step_makedirs_wf_closed T (dirname name) true
+    generalize Ref.step ⟨T, false⟩ (.makedirs (dirname name) true) = r1 at h1 h2 ⊢
+    obtain ⟨⟨T1, c1⟩, o1⟩ := r1
+    simp only at h1 h2 ⊢
+    subst h2
+    cases o1 with
+    | err e => exact h1
+    | ok v => rw [← h1]; exact step_create_isDir T1 name false
+
+theorem buildDir_isDir (names : List Str) (s : Ref.State) (hc : s.closed = false) (nm : List (Str × Str)) :
+    (buildDir s nm names).1.root.isDir = s.root.isDir := by
+  induction names generalizing s nm with
+  | nil => simp [buildDir]
+  | cons n ns ih =>
+    obtain ⟨T, c⟩ := s
+    simp only at hc
+    subst hc
+    have h := dirStep_isDir T n
+    have hcl := dirStep_closed T n
+    simp only [buildDir]
+    cases hd : dirStep ⟨T, false⟩ n with
+    | mk s' e =>
+      rw [hd] at h hcl
+      cases e with
+      | some e => exact h
+      | none =>
+        simp only
+        cases zipKey n with
+        | err e => exact h
+        | ok k => rw [ih s' hcl _]; exact h
 
 /-! ### building the directory of a written archive: the tree grows towards the source tree -/
 
@@ -1117,21 +1279,44 @@ theorem dirStep_grow {t T : Node} (ht : t.wf = true) {cs : List Name} {n : Node}
     refine ⟨T2, ?_, g2, h3.trans g3, g4⟩
     rw [g1]; rfl
 
+theorem endsWithSlash_snoc' (x : Str) : endsWithSlash (x ++ ['/']) = true := by
+  simp [endsWithSlash, startsWithSlash]
+
+/-- the names `write_zip` emits are their own `_zip_names` keys -/
+theorem zipKey_zipName {cs : List Name} (hcl : Clean cs) (hne : cs ≠ []) (d : Bool) :
+    zipKey (zipName cs d) = .ok (zipName cs d) := by
+  cases d with
+  | true =>
+    rw [zipName_dir hcl hne]
+    simp only [zipKey, normpath_dirName hcl hne, endsWithSlash_snoc', if_true, relpath_mkp hcl,
+      forcedir_mkp_false hcl hne]
+  | false =>
+    rw [zipName_file hcl]
+    simp only [zipKey, normpath_mkp hcl, endsWithSlash_mkp hcl hne, Bool.false_eq_true, if_false,
+      relpath_mkp hcl]
+
 theorem buildDir_grow {t : Node} (ht : t.wf = true) (l : List (List Name × Node))
     (hl : ∀ e ∈ l, e.1 ≠ [] ∧ t.get e.1 = some e.2) (T : Node) (hT : kindAt T [] = some true)
-    (hsub : Sub T t) :
-    ∃ T', buildDir ⟨T, false⟩ (l.map fun e => zipName e.1 e.2.isDir) = (⟨T', false⟩, none) ∧
-      Sub T' t ∧ Mono T T' ∧ ∀ e ∈ l, kindAt T' e.1 = some e.2.isDir := by
-  induction l generalizing T with
-  | nil => exact ⟨T, rfl, hsub, fun q _ => rfl, fun e he => by cases he⟩
+    (hsub : Sub T t) (nm : List (Str × Str)) (hnm : ∀ e ∈ nm, e.1 = e.2) :
+    ∃ T' nm', buildDir ⟨T, false⟩ nm (l.map fun e => zipName e.1 e.2.isDir) = (⟨T', false⟩, nm', none) ∧
+      Sub T' t ∧ Mono T T' ∧ (∀ e ∈ l, kindAt T' e.1 = some e.2.isDir) ∧ (∀ e ∈ nm', e.1 = e.2) := by
+  induction l generalizing T nm with
+  | nil => exact ⟨T, nm, rfl, hsub, fun q _ => rfl, (fun e he => by cases he), hnm⟩
   | cons e l ih =>
     obtain ⟨cs, n⟩ := e
     obtain ⟨hne, hg⟩ := hl (cs, n) List.mem_cons_self
     obtain ⟨T1, h1, h2, h3, h4⟩ := dirStep_grow ht hne hg hT hsub
     have hT1 : kindAt T1 [] = some true := by rw [h3 [] (by rw [hT]; simp), hT]
-    obtain ⟨T2, g1, g2, g3, g4⟩ := ih (fun e he => hl e (List.mem_cons_of_mem _ he)) T1 hT1 h2
-    refine ⟨T2, ?_, g2, h3.trans g3, ?_⟩
-    · simp only [List.map_cons, buildDir, h1]
+    have hkey := zipKey_zipName (wf_get ht hg).1.clean hne n.isDir
+    have hnm1 : ∀ e ∈ (zipName cs n.isDir, zipName cs n.isDir) :: nm, e.1 = e.2 := by
+      intro e he
+      rcases List.mem_cons.1 he with rfl | he
+      · rfl
+      · exact hnm e he
+    obtain ⟨T2, nm2, g1, g2, g3, g4, g5⟩ :=
+      ih (fun e he => hl e (List.mem_cons_of_mem _ he)) T1 hT1 h2 _ hnm1
+    refine ⟨T2, nm2, ?_, g2, h3.trans g3, ?_, g5⟩
+    · simp only [List.map_cons, buildDir, h1, hkey]
       exact g1
     · intro e he
       rcases List.mem_cons.1 he with rfl | he
@@ -1140,10 +1325,12 @@ theorem buildDir_grow {t : Node} (ht : t.wf = true) (l : List (List Name × Node
       · exact g4 e he
 
 /-- the directory `ReadZipFS` rebuilds from the members `write_zip` emitted has the kinds of the
-source tree at every path, and building it raises nothing -/
+source tree at every path, building it raises nothing, and every remembered stored name is the
+normalised name itself -/
 theorem readZip_dir_kinds {t : Node} (ht : t.wf = true) (hd : t.isDir = true) (mt : List Name → Int) :
     (readZip (zipMembers mt t)).err = none ∧
-    ∀ q, kindAt (readZip (zipMembers mt t)).dir q = kindAt t q := by
+    (∀ q, kindAt (readZip (zipMembers mt t)).dir q = kindAt t q) ∧
+    (∀ e ∈ (readZip (zipMembers mt t)).names, e.1 = e.2) := by
   have hl : ∀ e ∈ walkInfo t, e.1 ≠ [] ∧ t.get e.1 = some e.2 :=
     fun e he => (mem_walkInfo ht hd e.1 e.2).1 he
   have hsub0 : Sub (.dir []) t := by
@@ -1155,20 +1342,17 @@ theorem readZip_dir_kinds {t : Node} (ht : t.wf = true) (hd : t.isDir = true) (m
       | dir es => simp [kindAt, get_nil, Node.isDir]
       | file d => simp [Node.isDir] at hd
     | cons c q => left; simp [kindAt, get_cons_dir, Ents.lookup]
-  obtain ⟨T', h1, h2, _, h4⟩ := buildDir_grow ht (walkInfo t) hl (.dir []) (by simp [kindAt, get_nil, Node.isDir]) hsub0
+  obtain ⟨T', nm', h1, h2, _, h4, h5⟩ := buildDir_grow ht (walkInfo t) hl (.dir [])
+    (by simp [kindAt, get_nil, Node.isDir]) hsub0 [] (fun e he => by cases he)
   have hnames : (zipMembers mt t).map (·.name) = (walkInfo t).map fun e => zipName e.1 e.2.isDir := by
     simp [zipMembers, List.map_map, Function.comp_def]
-  have hb : buildDir Ref.State.empty ((zipMembers mt t).map (·.name)) = (⟨T', false⟩, none) := by
+  have hb : buildDir Ref.State.empty [] ((zipMembers mt t).map (·.name)) = (⟨T', false⟩, nm', none) := by
     rw [hnames]; exact h1
-  refine ⟨by simp [readZip, hb], ?_⟩
+  refine ⟨by simp [readZip, hb], ?_, by simpa [readZip, hb] using h5⟩
   intro q
   simp only [readZip, hb]
   by_cases hq : q = []
   · subst hq
-    have hroot : kindAt t [] = some true := by
-      cases t with
-      | dir es => simp [kindAt, get_nil, Node.isDir]
-      | file d => simp [Node.isDir] at hd
     rcases h2 [] with h | h
     · exfalso
       cases T' with
